@@ -65,6 +65,9 @@ def canon(it, v, V, depth=0):
     if isinstance(v, Obj):
         if v is V.TRUE or v is V.FALSE or v is V.NULL:
             return ("single", v.cls.name, str(v.fields.get("value")))
+        if v.cls.name == "ValueObject" and isinstance(v.fields.get("value"), PDict):
+            # the members of an object are rendered in the order in which they were added: that order is observable
+            return ("ValueObject", tuple((canon(it, k, V, depth + 1), canon(it, x, V, depth + 1)) for k, x in v.fields["value"].entries))
         if "value" in v.fields:
             return (v.cls.name, canon(it, v.fields["value"], V, depth + 1))
         return ("obj", v.cls.name)
@@ -96,6 +99,13 @@ def units(w):
         distinct(it, n)
         distinct(it, n, "w")
         return V.map_of(it, list(zip(elems(n), [SElem(z3.Int(f"w{i}"), "val") for i in range(n)])), name)
+
+    def mkstrmap(it, n, name="m"):
+        # a map with string keys (object members are named by the key texts): distinct symbolic texts
+        ks = [V.string(it, f"key{i}") for i in range(n)]
+        for p, q in itertools.combinations(ks, 2):
+            it.assume(p.fields["value"].z != q.fields["value"].z)
+        return V.map_of(it, list(zip(ks, [SElem(z3.Int(f"w{i}"), "val") for i in range(n)])), name)
 
     def rel_unit(target, name, build, call, n, allowed=("CklRuntimeError",)):
         """run `call` twice on equal content under independent iteration orders; outcomes must agree"""
@@ -131,13 +141,13 @@ def units(w):
         # conversions and rendering
         for cls, meth, mk in (("ValueSet", "asList", mkset), ("ValueSet", "getSortedItems", mkset), ("ValueSet", "__repr__", mkset), ("ValueSet", "__hash__", mkset),
                               ("ValueMap", "asList", mkmap), ("ValueMap", "asSet", mkmap), ("ValueMap", "getSortedKeys", mkmap), ("ValueMap", "__repr__", mkmap),
-                              ("ValueMap", "__hash__", mkmap), ("ValueMap", "asObject", None)):
+                              ("ValueMap", "__hash__", mkmap), ("ValueMap", "asObject", mkstrmap)):
             if mk is None:
                 continue
             f = w.func(f"values.py::{cls}.{meth}")
             u = rel_unit(f"values.py::{cls}.{meth}", "receiver", lambda it, n=n, mk=mk: [mk(it, n)], lambda it, a, f=f: it.call_func(f, a, {}), n)
             # rendering 3 elements forks over the bracket padding of symbolic element texts (minutes of string solving): thorough tier
-            u.thorough_only = (meth == "__repr__" and n == 3)
+            u.thorough_only = (meth in ("__repr__", "asObject") and n >= 3)
             U.append(u)
         # spread in a list literal and in a call
         def b_listspread(it, n=n):
@@ -324,6 +334,7 @@ append(out, [k for k in keys m]); append(out, [v for v in values m]); append(out
 def l = []; for x in s do append(l, x) end; append(out, l);
 def l2 = []; for [k, v] in entries m do append(l2, k + v) end; append(out, l2);
 append(out, [...s]); append(out, list(s)); append(out, list(m)); append(out, set(list(s)));
+append(out, string(object(m))); append(out, string(object(<<<'z' => 1, 'b' => 2, 'q' => 3>>>))); append(out, [k for k in keys object(m)]);
 def f(a...) a...; append(out, f(...s));
 def [p, q] = s; append(out, [p, q]);
 def r1 = 'z'; def r2 = 'z'; [r1, r2] = s; append(out, [r1, r2]);
